@@ -448,3 +448,107 @@ func hostileLayout(in ...[]byte) (out [][]byte, check func() string) {
 		return ""
 	}
 }
+
+// observersAgree checks every PUBLIC observer of p against the abstract point m:
+// identity / parity tests and all three encodings (a per-object hint or flag that
+// went stale - "this point is affine", "already rescaled" - leaves the raw
+// coordinates right and the encodings wrong, so the raw invariant is not enough).
+func observersAgree(p *Point, m *oracle.Pt) string {
+	if g := p.IsIdentity(); g != boolU64(m.Inf) {
+		return fmt.Sprintf("IsIdentity = %d for the abstract point %v", g, m)
+	}
+	c, u := p.CompressedBytes(), p.UncompressedBytes()
+	if !bytes.Equal(c, oracle.EncodeCompressed(m)) {
+		return fmt.Sprintf("CompressedBytes = %x, expected %x", c, oracle.EncodeCompressed(m))
+	}
+	if !bytes.Equal(u, oracle.EncodeUncompressed(m)) {
+		return fmt.Sprintf("UncompressedBytes = %x, expected %x", u, oracle.EncodeUncompressed(m))
+	}
+	xb, err := p.XBytes()
+	if m.Inf {
+		if err == nil {
+			return "XBytes of the identity did not fail"
+		}
+		return ""
+	}
+	if err != nil || !bytes.Equal(xb, b32(m.X)) {
+		return fmt.Sprintf("XBytes = %x (err %v), expected %x", xb, err, m.X)
+	}
+	if g := p.IsYOdd(); g != uint64(m.Y.Bit(0)) {
+		return fmt.Sprintf("IsYOdd = %d, y = %x", g, m.Y)
+	}
+	return ""
+}
+
+// freshPointVia builds a library point for the abstract point m through one of the
+// PUBLIC constructors / decoders (affine results), or through the raw hook with a
+// non-trivial Z.  into, when non-nil, may be reused as the receiver of a decode.
+func freshPointVia(rng *gen.Rng, m *oracle.Pt, into *Point) (*Point, string) {
+	switch k := rng.Intn(7); {
+	case m.Inf && k < 3:
+		return secp256k1.NewIdentityPoint(), "NewIdentityPoint"
+	case m.Inf && k < 5 && into != nil:
+		into.Identity()
+		return into, "Identity() on a reused receiver"
+	case !m.Inf && k == 0:
+		p, err := secp256k1.NewPointFromBytes(oracle.EncodeCompressed(m))
+		if err == nil {
+			return p, "NewPointFromBytes(compressed)"
+		}
+	case !m.Inf && k == 1:
+		p, err := secp256k1.NewPointFromBytes(oracle.EncodeUncompressed(m))
+		if err == nil {
+			return p, "NewPointFromBytes(uncompressed)"
+		}
+	case !m.Inf && k == 2:
+		p, err := secp256k1.NewPointFromCoords(arr32(m.X), arr32(m.Y))
+		if err == nil {
+			return p, "NewPointFromCoords"
+		}
+	case !m.Inf && k == 3 && into != nil:
+		if _, err := into.SetBytes(oracle.EncodeCompressed(m)); err == nil {
+			return into, "SetBytes(compressed) on a reused receiver"
+		}
+	case !m.Inf && k == 4 && m.Eq(oracle.G()):
+		return secp256k1.NewGeneratorPoint(), "NewGeneratorPoint"
+	}
+	z, cz := repZ(rng)
+	return pointRep(m, z), "raw[" + cz + "]"
+}
+
+// pointWithHistory returns a library object denoting m whose OBJECT has a past:
+// it first held a different point built by a public affine constructor (decoder,
+// NewPointFromCoords, NewGeneratorPoint), and was then overwritten - as a reused
+// receiver - with a projective representative of m by one of the closed operations.
+// Per-object hints that an operation forgets to refresh survive exactly this.
+func pointWithHistory(rng *gen.Rng, m *oracle.Pt) (*Point, string) {
+	other := oracle.MulG(big.NewInt(int64(2 + rng.Intn(50))))
+	obj, how0 := freshPointVia(rng, other, nil)
+	z, _ := repZ(rng)
+	src := pointRep(m, z)
+	var how string
+	switch rng.Intn(7) {
+	case 0:
+		obj.ConditionalSelect(pointRep(other, big.NewInt(5)), src, 1)
+		how = "ConditionalSelect(_, src, 1)"
+	case 1:
+		obj.ConditionalSelect(src, pointRep(other, big.NewInt(5)), 0)
+		how = "ConditionalSelect(src, _, 0)"
+	case 2:
+		obj.Negate(pointRep(oracle.Neg(m), z))
+		how = "Negate(-src)"
+	case 3:
+		obj.ConditionalNegate(pointRep(oracle.Neg(m), z), 1)
+		how = "ConditionalNegate(-src, 1)"
+	case 4:
+		obj.Set(src)
+		how = "Set(src)"
+	case 5:
+		obj.Add(src, secp256k1.NewIdentityPoint())
+		how = "Add(src, identity)"
+	default:
+		obj.Subtract(src, secp256k1.NewIdentityPoint())
+		how = "Subtract(src, identity)"
+	}
+	return obj, how0 + " then " + how
+}
